@@ -17,15 +17,17 @@ def arming_rules(ctx, tag, side):
                   and (side in g.npath.split('::')[0:1] or ('::' + side + '::') in ('::' + g.npath))]
     R.ob(tag + '.arm', (side, 'no other site arms or re-arms a deadline timer'), not other_arms,
          'timers are armed only when a request is registered and never re-armed', [g.loc(t) for g, _, t in other_arms] or [ins.loc(ins.d)])
+    from .common import lifter, own_sites
+    lift = lifter(F, P, bodies)     # the timer may be armed in a constructor of the entry type: its parameters are the table method's arguments
     for g, bb, t in arms:
-        a = [P.operand(g, x, at=bb) for x in t['args']]
+        a = [lift(g, P.operand(g, x, at=bb)) for x in t['args']]
         tr = P.root(a[0])
         ok = bool(tr) and all(r == ('param', ins.id, 1) and P.fpath(p) == (table.timer_field,) for r, p in tr)
         R.ob(tag + '.arm', (side + ' table insert', 'timer lives in the table'), ok, 'the timer is inserted into the table\'s own DelayQueue', [g.loc(t)])
         # key of the timer = key of the map entry
-        entry = [(bb2, t2) for bb2, t2 in g.calls() if callee_is(t2, 'HashMap::entry', 'HashMap::insert')]
+        entry = [(g2, bb2, t2) for g2 in bodies for bb2, t2 in g2.calls() if callee_is(t2, 'HashMap::entry', 'HashMap::insert')]
         kr = {r for r, _ in P.root(a[1])}
-        ok = len(entry) == 1 and kr == {r for r, _ in P.root(P.operand(g, entry[0][1]['args'][1], at=entry[0][0]))} and all(r[0] == 'param' for r in kr)
+        ok = len(entry) == 1 and kr == {r for r, _ in P.root(lift(entry[0][0], P.operand(entry[0][0], entry[0][2]['args'][1], at=entry[0][1])))} and all(r[0] == 'param' for r in kr)
         R.ob(tag + '.arm', (side + ' table insert', 'timer keyed by the request id'), ok, 'the timer carries the id under which the request is stored', [g.loc(t)])
         if callee_is(t, 'DelayQueue::insert_at'):
             # absolute form: the instant itself must be the deadline
@@ -50,9 +52,28 @@ def arming_rules(ctx, tag, side):
             kr2 = P.root(P._field(('agg', g.id, i, j), key_field))
             ok = bool(kr2) and all(r == ('call', g.id, bb) for r, _ in kr2)
         R.ob(tag + '.arm', (side + ' table insert', 'entry remembers its timer key'), ok, 'the entry stores the key of the timer armed for it', [g.loc(t)])
-    for g, bb, t in arms:
-        owners = [b2 for b2, t2 in g.calls() if callee_is(t2, 'hash_map::VacantEntry::insert', 'HashMap::insert', 'hash_map::Entry::or_insert', 'hash_map::Entry::or_insert_with')]
-        ok = bool(owners) and cfg.all_paths_pass(g, bb, cfg.exits(g), set(owners))
+    for g0, bb0, t in arms:
+        # judged in the table method's own body: at the arming call, or at the call to the helper that arms
+        oks = []
+        for g, bb in own_sites(F, table, ins, g0, bb0):
+            owners = [b2 for b2, t2 in g.calls() if callee_is(t2, 'hash_map::VacantEntry::insert', 'HashMap::insert', 'hash_map::Entry::or_insert', 'hash_map::Entry::or_insert_with')]
+            # a path that does not store the entry may instead disarm the timer it just armed (key = this very timer's)
+            me_ = ('call', g0.id, bb0)
+            for b2, t2 in g.calls():
+                h_ = F.callee_fn(t2)
+                direct = callee_is(t2, 'DelayQueue::remove', 'DelayQueue::try_remove') and all(P.unbound(r) == me_ for r, _ in P.root(P.operand(g, t2['args'][1], at=b2))) and bool(P.root(P.operand(g, t2['args'][1], at=b2)))
+                via = False
+                if h_ is not None and table.is_helper(h_) and h_.kind != 'Closure':
+                    for x in F.with_descendants(h_):
+                        for b3, t3 in x.calls():
+                            if callee_is(t3, 'DelayQueue::remove', 'DelayQueue::try_remove'):
+                                rr = P.root(P.operand(x, t3['args'][1], at=b3), through_params=table.is_helper, callers={g.id})
+                                via = via or (bool(rr) and all(P.unbound(r) == me_ for r, _ in rr))
+                if direct or via:
+                    owners.append(b2)
+            oks.append(bool(owners) and cfg.all_paths_pass(g, bb, cfg.exits(g), set(owners)))
+        g, bb = g0, bb0
+        ok = bool(oks) and all(oks)
         R.ob(tag + '.arm', (side + ' table insert', 'an armed timer always gets an owning entry'), ok,
              'on every path after arming the timer the entry that stores its key is inserted: no timer is left armed for an id whose registration was refused (it would later fire on another request with that id)',
              [g.loc(t)])
